@@ -151,7 +151,7 @@ impl<'a> Inst<'a> {
     }
 
     /// Generate an instance intended to be valid for `schema`.
-    pub fn gen(&self, g: &mut G, schema: &Value, budget: usize) -> Value {
+    pub fn gen(&self, g: &mut G, schema: &Value, budget: i32) -> Value {
         let s = match schema {
             Value::Bool(_) => return self.any(g),
             Value::Object(o) => o,
@@ -159,9 +159,9 @@ impl<'a> Inst<'a> {
         };
         if let Some(r) = s.get("$ref").and_then(|r| r.as_str()) {
             return match resolve(self.doc, r) {
-                Some(t) if budget > 0 => self.gen(g, t, budget - 1),
-                Some(t) => self.terminal(g, t, 6),
-                None => Value::Null,
+                // below -8 there is no finite instance along this path
+                Some(t) if budget > -8 => self.gen(g, t, budget - 1),
+                _ => Value::Null,
             };
         }
         if let Some(c) = s.get("const") {
@@ -185,13 +185,13 @@ impl<'a> Inst<'a> {
         for key in ["oneOf", "anyOf"] {
             if let Some(Value::Array(bs)) = s.get(key) {
                 if !bs.is_empty() {
-                    let b = if budget == 0 {
+                    let b = if budget <= 0 {
                         // prefer a terminating branch
                         bs.iter().find(|b| !mentions_ref(b)).unwrap_or(&bs[0])
                     } else {
                         g.pick(bs)
                     };
-                    return self.gen(g, b, budget.saturating_sub(1));
+                    return self.gen(g, b, budget - 1);
                 }
             }
         }
@@ -200,7 +200,7 @@ impl<'a> Inst<'a> {
             let mut all_obj = true;
             let mut last = Value::Null;
             for b in bs {
-                let v = self.gen(g, b, budget.saturating_sub(1));
+                let v = self.gen(g, b, budget - 1);
                 match &v {
                     Value::Object(o) => {
                         for (k, x) in o {
@@ -227,7 +227,7 @@ impl<'a> Inst<'a> {
                 return self.any(g);
             }
         }
-        let t = if budget == 0 && ts.iter().any(|t| t == "null") { "null".to_string() } else { g.pick(&ts).clone() };
+        let t = if budget <= 0 && ts.iter().any(|t| t == "null") { "null".to_string() } else { g.pick(&ts).clone() };
         match t.as_str() {
             "null" => Value::Null,
             "boolean" => json!(g.chance(1, 2)),
@@ -254,25 +254,16 @@ impl<'a> Inst<'a> {
         }
     }
 
-    /// smallest instance (used when the recursion budget is spent)
-    fn terminal(&self, g: &mut G, schema: &Value, fuel: usize) -> Value {
-        if fuel == 0 {
-            return Value::Null;
-        }
-        let _ = fuel;
-        self.gen(g, schema, 0)
-    }
-
-    fn gen_array(&self, g: &mut G, s: &Map<String, Value>, budget: usize) -> Value {
+    fn gen_array(&self, g: &mut G, s: &Map<String, Value>, budget: i32) -> Value {
         let min = s.get("minItems").and_then(|v| v.as_u64()).unwrap_or(0) as usize;
         let max = s.get("maxItems").and_then(|v| v.as_u64()).map(|m| m as usize);
         match s.get("items") {
             Some(Value::Array(items)) => {
-                let mut out: Vec<Value> = items.iter().map(|i| self.gen(g, i, budget.saturating_sub(1))).collect();
+                let mut out: Vec<Value> = items.iter().map(|i| self.gen(g, i, budget - 1)).collect();
                 if out.len() < min {
                     let extra = s.get("additionalItems").cloned().unwrap_or(json!(true));
                     while out.len() < min {
-                        out.push(self.gen(g, &extra, budget.saturating_sub(1)));
+                        out.push(self.gen(g, &extra, budget - 1));
                     }
                 }
                 if let Some(m) = max {
@@ -284,13 +275,13 @@ impl<'a> Inst<'a> {
                 let any = json!(true);
                 let item = items.unwrap_or(&any);
                 let hi = max.unwrap_or(min + 3).max(min);
-                let n = if budget == 0 { min } else if self.boundary { *g.pick(&[min, hi]) } else { min + g.below(hi - min + 1) };
+                let n = if budget <= 0 { min } else if self.boundary { *g.pick(&[min, hi]) } else { min + g.below(hi - min + 1) };
                 let unique = s.get("uniqueItems").and_then(|u| u.as_bool()).unwrap_or(false);
                 let mut out: Vec<Value> = vec![];
                 let mut tries = 0;
                 while out.len() < n && tries < n * 6 + 6 {
                     tries += 1;
-                    let v = self.gen(g, item, budget.saturating_sub(1));
+                    let v = self.gen(g, item, budget - 1);
                     if unique && out.contains(&v) {
                         continue;
                     }
@@ -301,7 +292,7 @@ impl<'a> Inst<'a> {
         }
     }
 
-    fn gen_object(&self, g: &mut G, s: &Map<String, Value>, budget: usize) -> Value {
+    fn gen_object(&self, g: &mut G, s: &Map<String, Value>, budget: i32) -> Value {
         let mut out = Map::new();
         let required: Vec<String> = s
             .get("required")
@@ -314,7 +305,7 @@ impl<'a> Inst<'a> {
             let req = required.contains(k);
             let include = req || (budget > 0 && g.chance(if self.boundary { 1 } else { 2 }, 3));
             if include {
-                out.insert(k.clone(), self.gen(g, ps, budget.saturating_sub(1)));
+                out.insert(k.clone(), self.gen(g, ps, budget - 1));
             }
         }
         for r in &required {
@@ -325,11 +316,11 @@ impl<'a> Inst<'a> {
         match s.get("additionalProperties") {
             Some(Value::Bool(false)) => {}
             Some(ap @ Value::Object(_)) => {
-                let n = if budget == 0 { 0 } else { g.below(3) };
+                let n = if budget <= 0 { 0 } else { g.below(3) };
                 for i in 0..n {
                     let k = format!("extra{}", i);
                     if !props.contains_key(&k) {
-                        out.insert(k, self.gen(g, ap, budget.saturating_sub(1)));
+                        out.insert(k, self.gen(g, ap, budget - 1));
                     }
                 }
             }
@@ -343,7 +334,7 @@ impl<'a> Inst<'a> {
             for (pat, ps) in pp {
                 if let Some(p) = find_pattern(pat) {
                     if g.chance(1, 2) {
-                        out.insert(p.good[0].to_string(), self.gen(g, ps, budget.saturating_sub(1)));
+                        out.insert(p.good[0].to_string(), self.gen(g, ps, budget - 1));
                     }
                 }
             }
